@@ -347,10 +347,14 @@ def gen_request(r, defect=None):
     svcs = r.sample(SVC_POOL, r.randint(0, 3))
     if defect == "underscore" and r.random() < 0.6 and SVC_POOL[0] not in svcs:
         svcs = [SVC_POOL[0]] + svcs[:2]
-    files, mi = [], 0
+    files, mi, bare = [], 0, set()
     sub = r.choice(["sub", "types_ext", "admin"]) if (ver and r.random() < 0.3) or defect in ("nested", "subsvc") else None
     if stems[:2] in ([FILE_POOL[0], FILE_POOL[1]], [FILE_POOL[1], FILE_POOL[0]]) and len(stems) < 3 and defect not in ("nested", "subsvc"):
         sub = None
+    if defect == "nomsg" and len(svcs) < 2:
+        svcs = r.sample(SVC_POOL, 2)
+    if defect == "nomsg" and len(stems) < 2:
+        stems = (stems + [x for x in FILE_POOL if x not in stems and not x[0].startswith("k8s")])[:r.randint(2, 3)]
     if defect in ("subsvc", "nested"):
         ver = ver or "v1"
         pkg = ".".join(ns + [name, ver])
@@ -362,9 +366,15 @@ def gen_request(r, defect=None):
         if defect == "nested" and k == len(stems) - 1:
             p = pkg + "." + sub + ".deep"
         f = File(f"{p.replace('.', '/')}/{stem}.proto", p, deps=list(apigen.STD_DEPS))
-        mi += 1
-        m = f.message(f"Msg{mi}")
-        m.field("name", 1, "string")
+        # target files without any message or enum: a service-only file whose request / response messages live in a sibling
+        # file, or an empty placeholder file — each still gets its types module
+        if k > 0 and (defect == "nomsg" or r.random() < 0.1):
+            f.dep(files[0].proto.name)
+            bare.add(k)
+        else:
+            mi += 1
+            m = f.message(f"Msg{mi}")
+            m.field("name", 1, "string")
         files.append(f)
     if defect == "nested" and len(files) == 1:
         f = File(f"{d}/top.proto", pkg, deps=list(apigen.STD_DEPS))
@@ -374,8 +384,9 @@ def gen_request(r, defect=None):
     for k, (sname, _) in enumerate(svcs):
         f = files[-1 - (k % len(files))] if (defect == "subsvc" or r.random() < 0.3) else rootfiles[k % len(rootfiles)]
         s = f.service(sname, host="files.example.com", scopes="https://www.googleapis.com/auth/cloud-platform")
-        mm = f.proto.message_type[0]
-        fq = "." + f.proto.package + "." + mm.name
+        owner = f if f.proto.message_type else files[0]
+        mm = owner.proto.message_type[0]
+        fq = "." + owner.proto.package + "." + mm.name
         s.rpc("Get" + sname.strip("_"), fq, fq, http=("post", f"/v1/{sname.lower()}:get"), body="*")
     deps = []
     if r.random() < 0.35 or defect == "prefixdep":
@@ -624,6 +635,9 @@ def run_e2e(ctx, cases, tag="c11e2e"):
         feats += ["e2e dependency-only own file"] if any(not d.startswith("google/") for d in ref["dep_only"]) else []
         feats += ["e2e unknown options"] if unknown else []
         feats += [("e2e ads-templates " + ("versioned" if ref["versioned"] else "unversioned"))] if ref["ads"] else []
+        _req = apigen.req_from_b64(c["request_b64"])
+        _bare = [fp for fp in _req.proto_file if fp.name in _req.file_to_generate and not fp.message_type and not fp.enum_type]
+        feats += ["e2e target file without messages: " + ("service-only" if any(fp.service for fp in _bare) else "empty")] if _bare else []
         feats += ["e2e sub-package"] if any("/types/" in t and t.count("/") > ref["root"].count("/") + 2 for t in ref["types"]) else []
         ctx.case({"e2e": env.canon_hash(case)}, nontrivial=True, feature=feats)
         tpl = "ads_templates" if ref["ads"] else "default_templates"
@@ -700,8 +714,9 @@ def run(ctx):
     cases += [c for c in (make_case("C11-e2e", i) for i in range(ctx.n(26, 400))) if c]
     for k, d in enumerate(["eq", "prefixdep", "nested", "subsvc", "dotted"]):
         cases += [c for c in (make_case(f"C11-e2e-{d}", i, d) for i in range(ctx.n(1, 6))) if c]
-    cases += [c for c in (make_case("C11-e2e-ads", i, "ads") for i in range(ctx.n(5, 40))) if c]
-    cases += [c for c in (make_case("C11-e2e-underscore", i, "underscore") for i in range(ctx.n(4, 30))) if c]
+    cases += [c for c in (make_case("C11-e2e-ads", i, "ads") for i in range(ctx.n(4, 40))) if c]
+    cases += [c for c in (make_case("C11-e2e-underscore", i, "underscore") for i in range(ctx.n(3, 30))) if c]
+    cases += [c for c in (make_case("C11-e2e-nomsg", i, "nomsg") for i in range(ctx.n(3, 30))) if c]
     checks = run_e2e(ctx, cases)
     eval_e2e(ctx, checks, "c11e2e", len(cases))
 
